@@ -171,6 +171,45 @@ def ambiguous_component_imports(ctx, vh, rng):
     shutil.rmtree(work, ignore_errors=True)
 
 
+def cli_repeated_runs(ctx):
+    """the command itself, several sources in one invocation, one of them faulty: the same files are written, the same diagnostics printed and the same status returned
+    in every run (the order in which the sources are translated is the order of the arguments); two sources whose outputs share a lower-cased name: the last one wins, always"""
+    import os
+    import shutil
+    import subprocess
+    from . import c07
+    cli = c07.build_cli()
+    work = os.path.join(C.BUILD, "c08cli")
+    shutil.rmtree(work, ignore_errors=True)
+    good = lambda t: "import qmluic.QtWidgets\nQWidget { QLabel { text: \"%s\" } }\n" % t
+    bad = lambda p: "import qmluic.QtWidgets\nQWidget { QLabel { %s: 1 } }\n" % p
+    layouts = [("one-faulty", {"Good.qml": good("g"), "BadA.qml": bad("unknownA"), "BadB.qml": bad("unknownB"), "Last.qml": good("l")}, ["Good.qml", "BadA.qml", "BadB.qml", "Last.qml"]),
+               ("faulty-first", {"BadA.qml": bad("unknownA"), "Good.qml": good("g"), "Other.qml": good("o")}, ["BadA.qml", "Good.qml", "Other.qml"]),
+               ("same-lowercase-name", {"Panel.qml": good("first"), "PANEL.qml": good("second"), "PaNeL.qml": good("third")}, ["Panel.qml", "PANEL.qml", "PaNeL.qml"]),
+               ("many", dict(("S%d.qml" % i, good(str(i))) for i in range(9)), ["S%d.qml" % i for i in range(9)])]
+    reps = 10 if ctx.tier == "thorough" else 6
+    for name, files, args in layouts:
+        seen = {}
+        for k in range(reps):
+            d = os.path.join(work, "%s_%d" % (name, k))
+            os.makedirs(d)
+            for f, t in files.items():
+                open(os.path.join(d, f), "w").write(t)
+            pr = subprocess.run([cli, "generate-ui", "--foreign-types", os.path.join(C.REPO, "contrib", "metatypes")] + args, cwd=d, capture_output=True, text=True, timeout=120,
+                                env=dict(os.environ, NO_COLOR="1"))
+            outs = tuple(sorted((f, open(os.path.join(d, f)).read()) for f in os.listdir(d) if not f.endswith(".qml")))
+            order = tuple(l.strip() for l in pr.stderr.split("\n") if "processing" in l or "error" in l)
+            seen.setdefault((pr.returncode, outs, order), []).append(k)
+            ctx.count(("cli-repeat", name, k), True)
+        ctx.dist("cli-repeated-runs")
+        if len(seen) > 1:
+            a, b = list(seen)[:2]
+            ctx.violation("%d runs of `generate-ui %s` give %d different outcomes (exit status, files written, report): e.g. exit %d with %s vs exit %d with %s"
+                          % (reps, " ".join(args), len(seen), a[0], [f for f, _ in a[1]], b[0], [f for f, _ in b[1]]),
+                          {"cli_args": ["generate-ui"] + args, "files": files, "impl_output": [list(a[2]), list(b[2])], "theorem_or_correspondence": "C08 / repeated runs of the command"})
+    shutil.rmtree(work, ignore_errors=True)
+
+
 def shared_context_documents(ctx, vh, rng, wide, others):
     """documents translated before in the same process, through ONE BuildContext (as the command line does): the same document must give the same form and the
     same diagnostics first in the run, last in the run and alone.  The documents share ids and generated names (o1, srcS, action, label ...), so anything the
@@ -289,6 +328,7 @@ def run(ctx):
     homonym_components(ctx, vh, rng)
     shared_context_documents(ctx, vh, rng, wide, others)
     ambiguous_component_imports(ctx, vh, rng)
+    cli_repeated_runs(ctx)
     ctx.coverage["rule"] = ("wide generated documents (all catalogue properties per object, all font/geometry members, all handlers, attached bindings; half with 15%% ill-typed "
                             "bindings) in the three modes, the repository's example/test documents and mutants in generate mode; each translated %d times, every round in a "
                             "different order, spread over fresh processes; non-trivial = wide document or at least 2 diagnostics" % reps)
